@@ -77,8 +77,9 @@ TEXT = {
         text='c13_version_result (non-owning result read from a word without X), c13_shared_fallback / c13_cas_from_noX (owning result by CAS from a word with no X). Prepare monitor on traces.',
         note=TRUST),
     'C14': dict(technique=TH,
-        text='c14_all_exited_all_free, c14_flag_has_holder, c14_release_clears, c14_solo_claim_succeeds (a lone claimer succeeds within n+1 probes when a slot is free). '
-             'Progress among several claimers: probing-progress monitor (4N+4 bound) on oversubscribed scenarios.',
+        text='c14_all_exited_all_free, c14_flag_has_holder, c14_release_clears, c14_solo_claim_succeeds; c14_claim_returns: bounded waiting under every interleaving - with at least as many free IDs as '
+             'threads in the claim loop (nobody inside the exit path), a claimer owns an ID after at most claimers*(n+2)+n+2 of its own atomic steps whatever the others do (potential argument, Proofs/IdMgrLive.lean); '
+             'c14_accessors_as_modelled (tie G: shapes of HasID/GetID/GetHeartBeat/SetID). Claimers racing with exiting threads: probing-progress monitor (4N+4 bound) on oversubscribed scenarios.',
         note=TRUST),
     'C15': dict(technique=TH,
         text='c15_lifetime (token alive iff between claim and expiry), c15_free_slot_all_expired, c15_unexpired_unique, c15_exit_order (regenerated destructor shape), '
